@@ -1,9 +1,10 @@
 #!/bin/bash
 # usage: run.sh <tier> <out.json> ; exit 0 = law holds on every offer within the bound
 export GOFLAGS=-mod=mod GOPROXY=off GOSUMDB=off GOTOOLCHAIN=local
+repo=${VERIF_REPO:-/repo}
 d=$(mktemp -d)
-printf '{"Replace":{"/repo/x/liquidity/amm/zz_verif_c06_bounded_test.go":"/verif/bounded/c06/ranged_create_test.go"}}' > $d/ov.json
-cd /repo && VERIF_TIER=$1 VERIF_BOUNDED_OUT=$2 go test -overlay $d/ov.json -vet=off -count=1 -timeout 600s -run 'TestVerifC06RangedCreateWithinOffer' ./x/liquidity/amm/ > $d/log 2>&1
+printf '{"Replace":{"%s/x/liquidity/amm/zz_verif_c06_bounded_test.go":"/verif/bounded/c06/ranged_create_test.go"}}' $repo > $d/ov.json
+cd $repo && VERIF_C06_KNOWN=/verif/bounded/c06/known_excursions.txt VERIF_TIER=$1 VERIF_BOUNDED_OUT=$2 go test -overlay $d/ov.json -vet=off -count=1 -timeout 600s -run 'TestVerifC06RangedCreateWithinOffer|TestVerifC06RangedPriceWithinRange' ./x/liquidity/amm/ > $d/log 2>&1
 rc=$?
 tail -25 $d/log > ${2%.json}.log
 rm -rf $d
